@@ -12,11 +12,11 @@ EXTENDS Integers, Sequences, FiniteSets, TLC, Json, IOUtils
 Traces == ndJsonDeserialize(IOEnv.TRACE_FILE)
 
 VARIABLES tid, l, D,
-          q, slot, heap, clock, tasks, pool, lp, stopped, nextId, njobs, orders, log, events, sched, bad
-mvars == <<D, q, slot, heap, clock, tasks, pool, lp, stopped, nextId, njobs, orders, log, events, sched, bad>>
+          q, slot, heap, clock, tasks, pool, lp, stopped, nextId, njobs, orders, log, sm, events, sched, bad
+mvars == <<D, q, slot, heap, clock, tasks, pool, lp, stopped, nextId, njobs, orders, log, sm, events, sched, bad>>
 vars == <<tid, l, mvars>>
 
-B == INSTANCE BtDispatcher WITH Emit <- FALSE, Cfg <- 0
+B == INSTANCE BtDispatcher WITH Emit <- FALSE, Cfg <- 0, KeepLog <- TRUE
 
 Progress(t, n) == TLCSet(t, IF TLCGet(t) < n THEN n ELSE TLCGet(t))
 
